@@ -194,7 +194,8 @@ def run(ctx):
     ds = summarize(prog, dec)
     ctx.count("decoders")
     dp = dec.params[-1]
-    for pc2, ret, node2, _st in ds.returns:
+    from ._pipeline import decode_returns
+    for pc2, ret, node2, _st in decode_returns(prog, ds):
         if node2 is None:
             continue
         facts = atoms(pc2)
